@@ -85,6 +85,9 @@ def cases(draw, max_chroms=4, max_bins=6):
         "perm_seed": draw(st.integers(0, 2**16)) if form in ("frame-shuffled", "chunks-ensure-sorted") else None,
         "shuffle": draw(st.sampled_from(["within-rows", "full"])) if form == "chunks-ensure-sorted" else None,
         "junk": draw(st.booleans()),
+        # row labels of the input frame(s): a fresh RangeIndex, or what earlier pandas operations leave behind
+        # (reversed / permuted / gappy integer labels, strings) - labels carry no meaning for create_cooler
+        "index_kind": draw(st.sampled_from(["range", "range", "reversed", "permuted", "gappy", "strings"])),
         # optional input checks switched off: valid input is stored identically with or without them
         "checks_off": draw(st.sampled_from([[], [], [], ["boundscheck", "triucheck", "dupcheck"], ["dupcheck"], ["boundscheck", "dupcheck"], ["triucheck"]])),
         "h5opts": draw(gen.H5OPTS),
@@ -137,6 +140,16 @@ def build_input(case):
         df = pixel_frame(rs, allcols, in_dtypes)
         if case["junk"]:
             df["junk"] = np.arange(len(df)) * 3 + 1
+        ik = case.get("index_kind", "range")
+        m_ = len(df)
+        if ik == "reversed":
+            df.index = np.arange(m_)[::-1]
+        elif ik == "permuted":
+            df.index = np.random.RandomState(m_ + 17).permutation(m_)
+        elif ik == "gappy":
+            df.index = np.arange(m_) * 10 + 5
+        elif ik == "strings":
+            df.index = [f"r{t}" for t in range(m_)]
         return df
 
     if form == "arrayloader":
@@ -153,7 +166,8 @@ def build_input(case):
     if form == "frame-shuffled":
         df = frame(rows)
         rng = np.random.RandomState(case["perm_seed"])
-        return df.iloc[rng.permutation(len(df))].reset_index(drop=True)
+        df = df.iloc[rng.permutation(len(df))]
+        return df if case.get("index_kind", "range") != "range" else df.reset_index(drop=True)
     if form == "dict":
         df = frame(rows)
         return {k: df[k].to_numpy() for k in df.columns}
@@ -309,7 +323,7 @@ def check_roundtrip(case, ctx: Ctx):
     nt = len(rows) >= 2 and (nonempty_chunks >= 2 or (diag and off) or set(bt["kinds"]) - {"fixed"}
                              or len(cols) > 1 or bool(case["dtypes"]) or case["h5opts"] is not None)
     ctx.record(case, bool(nt), [
-        "form=" + case["form"], "checks-off=" + ("+".join(case.get("checks_off", [])) or "none"), "sym" if symmetric else "square", "cols=" + "+".join(cols),
+        "form=" + case["form"], "checks-off=" + ("+".join(case.get("checks_off", [])) or "none"), "index=" + case.get("index_kind", "range"), "sym" if symmetric else "square", "cols=" + "+".join(cols),
         "dest=" + (case["dest"] or "file"), "empty" if not rows else "nonempty",
         "chunks>=2" if nonempty_chunks >= 2 else "chunks<2",
         "emptychunk" if case["form"].startswith("chunks") and any(not c for c in gen.split_at(rows, case["cuts"])) else "no-emptychunk",
